@@ -76,6 +76,7 @@ const (
 	WrongDescriptionContext                             = "wrong description context"
 	MethodIsAlreadyDefinedInResource                    = "this method has already been defined in the resource"
 	UndefinedRequestBodyForResource                     = "undefined request body for resource"
+	UserTypeRootRecursion                               = "the user type refers to itself at the root level"
 	RecursionIsProhibited                               = "file dependency recursion is detected, learn more about the INCLUDE directive here: https://jsight.io/docs/jsight-api-0-3#directive-include" //nolint:lll
 	UserTypeIsNotAnObject                               = "the user type is not an object"
 	ProcessTypeErr                                      = "process type"
